@@ -8,6 +8,8 @@
 (* dial is over (Wake) or its context ends (WaitCtx).                          *)
 EXTENDS PipeStep, Json, Randomization
 
+CONSTANTS RareN, VeryRareN   \* how seldom the environment's faults are taken (1 in N evaluations)
+
 Open(c) == cst[c] = "open"
 Proj == [tclosed |-> tclosed, cst |-> cst,
          pool |-> [c \in Conn |-> IF Open(c) THEN pool[c] ELSE "x"],
@@ -40,9 +42,9 @@ CodeStep == \/ \E e \in Ex : Get(e) \/ AddQueue(e) \/ Del(e) \/ Rel(e)
             \/ \E e \in Ex, k \in {"reply", "ctx", "conn"} : Ret(e, k)
             \/ \E e \in Ex : Write(e, TRUE)
             \/ \E c \in Conn : Send(c) \/ (\E m \in wire[c] : Lookup(c, m))
-Rare == RandomElement(1..6) = 1 \/ ~ENABLED CodeStep
+Rare == RandomElement(1..RareN) = 1 \/ ~ENABLED CodeStep
 Often == RandomElement(1..2) = 1 \/ ~ENABLED CodeStep
-VeryRare == RandomElement(1..30) = 1 \/ ~ENABLED CodeStep
+VeryRare == RandomElement(1..VeryRareN) = 1 \/ ~ENABLED CodeStep
 
 RNext ==
   IF SomeUrgent
@@ -59,7 +61,10 @@ RNext ==
                         \/ \E k \in {"reply", "ctx", "conn"} : (Ret(e, k) /\ Edge([a |-> "Ret", e |-> e, k |-> k]))
        \/ \E c \in Conn : \/ (DialDone(c, TRUE) /\ Edge([a |-> "DialDone", c |-> c, ok |-> TRUE]))
                           \/ (Rare /\ DialDone(c, FALSE) /\ Edge([a |-> "DialDone", c |-> c, ok |-> FALSE]))
-                          \/ \E q \in Ids : (Often /\ ServerSend(c, q) /\ Edge([a |-> "ServerSend", c |-> c, q |-> q, tok |-> ntok + 1]))
+                          \* the server mostly answers what was asked (so that exchanges get somewhere), and now and then
+                          \* sends something nobody is waiting for
+                          \/ \E q \in Ids : ((IF q \in DOMAIN queue[c] THEN Often ELSE VeryRare)
+                                               /\ ServerSend(c, q) /\ Edge([a |-> "ServerSend", c |-> c, q |-> q, tok |-> ntok + 1]))
                           \/ \E m \in wire[c] : (Lookup(c, m) /\ Edge([a |-> "Lookup", c |-> c, q |-> m[1], tok |-> m[2]]))
                           \/ (Send(c) /\ Edge([a |-> "Send", c |-> c]))
                           \/ (VeryRare /\ ReadErr(c) /\ Edge([a |-> "ReadErr", c |-> c]))
